@@ -436,7 +436,7 @@ def fusion_cases(ctx):
         depth = rng.randint(4, 30)
         spec = random_spec(rng, n, depth, special=rng.random() < 0.5)
         cases.append((n, spec, list(range(1, n + 1)), "exec"))
-    for _ in range(150 if ctx.thorough else 40):
+    for _ in range(500 if ctx.thorough else 160):
         n = rng.randint(3, 6)
         spec = layered_spec(rng, n, rng.randint(2, 6))
         cases.append((n, spec, list(range(1, n + 1)), "exec"))
@@ -1036,14 +1036,17 @@ def cone_suite(ctx):
     ctx.ob("C07_corr_cone_reduced", red_bad == 0, "correspondence", f"{red_bad} disagreements" if red_bad else "")
     ctx.ob("C07_search_cone_reduced", sem_bad == 0, "search", f"{sem_bad} failures" if sem_bad else "")
     # density-matrix circuits keep the flag
-    c, _ = build(3, [("N", "X", (0,), ()), ("N", "CNOT", (0, 2), ()), ("N", "Z", (1,), ())], density=True)
-    lc, qmap = c.light_cone(2)
-    rho = np.asarray(nb.execute_circuit(c).state())
-    rc = np.asarray(nb.execute_circuit(lc).state())
-    ok = lc.density_matrix and qmap == {0: 0, 2: 1} and np.allclose(reduced_dm(rho, 3, [2]), reduced_dm(rc, 2, [1]))
+    try:
+        c, _ = build(3, [("N", "X", (0,), ()), ("N", "CNOT", (0, 2), ()), ("N", "Z", (1,), ())], density=True)
+        lc, qmap = c.light_cone(2)
+        rho = np.asarray(nb.execute_circuit(c).state())
+        rc = np.asarray(nb.execute_circuit(lc).state())
+        ok = lc.density_matrix and qmap == {0: 0, 2: 1} and np.allclose(reduced_dm(rho, 3, [2]), reduced_dm(rc, 2, [1]))
+    except Exception:  # noqa: BLE001
+        ok = False
     ctx.ob("C07_search_cone_dm", ok, "search", "" if ok else "density-matrix light cone differs")
     if not ok:
-        ctx.fail("cone:dm", "light_cone of a density-matrix circuit", "from qibo import Circuit, gates\nc = Circuit(3, density_matrix=True); c.add([gates.X(0), gates.CNOT(0, 2), gates.Z(1)])\nlc, qm = c.light_cone(2)\nassert lc.density_matrix and qm == {0: 0, 2: 1}\n", broken=["C07_search_cone_dm"])
+        ctx.fail("cone:dm", "light_cone of a density-matrix circuit", "from qibo import Circuit, gates\nc = Circuit(3, density_matrix=True); c.add([gates.X(0), gates.CNOT(0, 2), gates.Z(1)])\nlc, qm = c.light_cone(2)\nassert lc.density_matrix and qm == {0: 0, 2: 1}\nlc()\n", broken=["C07_search_cone_dm"])
 
 
 RED_PY = """def reduced(state, n, keep):
